@@ -6,6 +6,7 @@ from ural.infer_redirection import infer_redirection
 
 _CTRL = re.compile("[\x00-\x1f\x7f-\x9f]")
 _KEYS = re.compile(r"(?:^|[?&])(redirect(?:_to)?|target|redir|next|link|orig|goto|url|[luq])=([^&]+)", re.I)
+_HAS_PROTOCOL = re.compile(r"^[a-zA-Z]{0,64}:?//")
 _CACHES = re.compile(r"(?:\.ampproject\.org/[cv]/(?:s/)?|bc\.marfeelcache\.com/amp/|bc\.marfeel\.com/)", re.I)
 
 
@@ -43,6 +44,14 @@ def recursive_equals_iterated_step(u):
     return True               # longer chains than 12 steps are outside this obligation
 
 
+def _resolve(base, val):
+    """a relative target resolved against the url; the host of an url written without protocol is still its host"""
+    if _HAS_PROTOCOL.match(base) or base.startswith("/"):
+        return urljoin(base, val)
+    r = urljoin("//" + base, val)
+    return r[2:] if r.startswith("//") else r
+
+
 def step_returns_input_or_embedded_target(u):
     t = infer_redirection(u, recursive=False)
     if t == u:
@@ -57,4 +66,4 @@ def step_returns_input_or_embedded_target(u):
     if m is None:
         return False
     val = unquote(m.group(2))
-    return t == val or t == urljoin(cleaned, val) or t == "https://" + val
+    return t == val or t == _resolve(cleaned, val) or t == "https://" + val
